@@ -348,7 +348,13 @@ fn run_ws_frames(inst: &Instance, bodies: &[Vec<usize>], out: &std::sync::Mutex<
         let (_, model) = expected(&cmds);
         let mut results: Vec<(Vec<String>, String, String)> = vec![];
         let mut failed = false;
-        for one_frame in [false, true] {
+        // mode 0: one frame per command; 1: one frame `a;b`; for bodies of at most two commands also
+        // 2: trailing ';', 3: `a;;b` (a blank statement in the middle). (Blanks around the separators are not
+        // tried on this front end: it does not trim, a statement that starts with a blank is an empty command
+        // there, and the property does not say otherwise.)
+        let modes: Vec<usize> = if cmds.len() <= 2 { vec![0, 1, 2, 3] } else { vec![0, 1] };
+        for mode in modes.iter().cloned() {
+            let one_frame = mode != 0;
             reset(&inst.node);
             n += 1;
             let mut c = match inst.ws.connect() {
@@ -359,7 +365,7 @@ fn run_ws_frames(inst: &Instance, bodies: &[Vec<usize>], out: &std::sync::Mutex<
                     break;
                 }
             };
-            let to_send: Vec<String> = if one_frame { vec![cmds.join(";")] } else { cmds.iter().map(|x| x.to_string()).collect() };
+            let to_send: Vec<String> = if one_frame { vec![render(&cmds, mode - 1)] } else { cmds.iter().map(|x| x.to_string()).collect() };
             let frames = match c.frames_until_marker(&to_send) {
                 Some(f) => f,
                 None => {
@@ -385,6 +391,22 @@ fn run_ws_frames(inst: &Instance, bodies: &[Vec<usize>], out: &std::sync::Mutex<
         }
         if failed {
             continue;
+        }
+        // frames with blank statements: the blank statement's own error frame aside, the same replies, the same
+        // database and the same clean-up as separate frames
+        for (mi, r) in results.iter().enumerate().skip(2) {
+            let sep = &results[0];
+            let frames: Vec<String> = r.0.iter().filter(|f| !f.contains("empty command")).cloned().collect();
+            let framing = render(&cmds, modes[mi] - 1);
+            if frames != sep.0 {
+                out.lock().unwrap().push(Violation { clause: if frames.len() != sep.0.len() { "websocket-entry-count-mismatch" } else { "websocket-entry-mismatch" }.into(), shape: format!("framing #{}: {}", modes[mi], cmds.join(" ; ")), detail: format!("one frame {:?} answered with {:?}; the same commands in separate frames with {:?}", framing, r.0, sep.0), replay: json!({"engine":"c20","transport":"websocket","commands":cmds,"frame":framing}) });
+            }
+            if r.1 != sep.1 {
+                out.lock().unwrap().push(Violation { clause: "commands-not-executed-once-in-order".into(), shape: format!("websocket framing #{}: {}", modes[mi], cmds.join(" ; ")), detail: format!("database after the frame {:?}: {} ; after separate frames: {}", framing, r.1, sep.1), replay: json!({"engine":"c20","transport":"websocket","commands":cmds,"frame":framing}) });
+            }
+            if !r.2.starts_with("closed=true watchers_left=0 counter=0 $connections=0") {
+                out.lock().unwrap().push(Violation { clause: if r.2.contains("watchers_left=0") { "connection-count-leaked" } else { "subscription-leaked" }.into(), shape: format!("websocket framing #{}: {}", modes[mi], cmds.join(" ; ")), detail: format!("after the WebSocket connection (frame {:?}) closed: {}", framing, r.2), replay: json!({"engine":"c20","transport":"websocket","commands":cmds,"frame":framing}) });
+            }
         }
         let (sep, one) = (&results[0], &results[1]);
         if sep.0 != one.0 {
